@@ -2,7 +2,7 @@ package p2pke
 
 // C05: a channel talks only to an accepted key, and to the same key forever.
 
-//verif: replay=none time=concrete unwind=130 cover=promoted,app-data,new-responder,rejected-key,restart-while-established bounds="Channel.Deliver: one step from an arbitrary slot state satisfying the documented invariant (slots 0/1 nil or ready with the channel key, slot 2 nil or pending with ANY key), acceptance predicate (key&m)==v for symbolic m,v, arbitrary packet (counter 0..79, 0..2 body bytes)"
+// verif: replay=none time=concrete unwind=130 cover=promoted,app-data,new-responder,rejected-key,restart-while-established bounds="Channel.Deliver: one step from an arbitrary slot state satisfying the documented invariant (slots 0/1 nil or ready with the channel key, slot 2 nil or pending with ANY key), acceptance predicate (key&m)==v for symbolic m,v, arbitrary packet (counter 0..79, 0..2 body bytes)"
 func VH_C05_channelStep() bool {
 	e := vChannel()
 	c := e.c
